@@ -1931,7 +1931,9 @@ export class AnyOfDiscriminatedRuntype extends BaseRuntype {
     const printingContext = this.getPrintingContext(ctx);
     const refTarget = this.getRefTarget(runtype);
     if (refTarget != null) {
-      this.ensureContextualDefinition(refTarget.name, refTarget.target, ctx);
+      // same rule as BaseRefRuntype.schema: an override replaces the named type's own schema
+      const target = printingContext.getNamedTypeSchemaOverride(refTarget.name) ?? refTarget.target;
+      this.ensureContextualDefinition(refTarget.name, target, ctx);
       return printingContext.getRef(refTarget.name);
     }
 
